@@ -53,6 +53,32 @@ CHECKS = {
             "blobs are planted the way each legacy codec wrote them and must decode to the original value.",
             "fake dbutils; documented commit types are those of the set_store docstring",
             "5/C19"),
+    "C01": ("progmc", "model_checking",
+            "explicit-state exploration of edit/restart/evaluate histories over a generated program family vs a dds-free reference run",
+            "Every program of the family (unit programs: one dependency kind - tracked variable of each type and access form, body text at "
+            "each position, callee through each import form and syntactic context, argument forms, the same function kept twice - and "
+            "composites over <= 4 kept nodes) is taken through all histories of (variant of its edit cube, in-process edit or restart, "
+            "evaluate) up to depth 2 (quick) / 3 (thorough) on memory / local / cache-wrapped stores; every returned value is compared "
+            "with the value the same files return under a stub dds.",
+            "the reference is the same generated source imported with a stub dds package; virtual restart = pristine copy of all dds module state",
+            "5/C01"),
+    "C02": ("progmc", "model_checking",
+            "explicit-state exploration of edit/restart/copy/entry-switch histories with a cone-fingerprint oracle on the execution log",
+            "Same program family and histories as C01 plus copies of the package to another accepted name, entry-style switches and "
+            "structural edits (unrelated definitions, reordering, comments, non-accepted code). After every evaluation the execution log "
+            "may contain a kept function only if the cone fingerprint (DESIGN 4.1, computed from the spec, never from dds) of one of its "
+            "nodes has not been evaluated before on that store.",
+            "cone fingerprints over-approximate DESIGN 4.1 (a larger cone only removes demands)",
+            "5/C02"),
+    "C04": ("progmc", "model_checking",
+            "explicit-state exploration of edit/restart/evaluate histories; every committed path loaded after every evaluation",
+            "Three-node pipelines kept under path sets of 1-4 segments with shared directories and concatenation-ambiguous names, two "
+            "roots keeping different subsets and a kept top-level node (revert histories A,B,A to depth 3), on memory, local, cache-wrapped "
+            "local and DBFS(fake): after every evaluation every path kept so far is loaded in the same process, and in a fresh process "
+            "at the end of each history, and compared with the latest value the reference kept there; for the local store the file "
+            "under the data directory is compared byte for byte.",
+            "reference values are traces of everything that produced them",
+            "5/C04"),
 }
 
 NOT_YET = {}
